@@ -1575,12 +1575,17 @@ class DataFieldRecordArray(
             If ``must_exist`` is set to ``True`` and a given field does not
             exist.
         """
+        # Make sure that all required fields exist before any field gets
+        # renamed.
+        if must_exist is True:
+            for old_fname in conversions:
+                if old_fname not in self.field_name_list:
+                    raise KeyError(
+                        f'The required field "{old_fname}" does not exist!')
+
         for (old_fname, new_fname) in conversions.items():
             if old_fname in self.field_name_list:
                 self._data_fields[new_fname] = self._data_fields.pop(old_fname)
-            elif must_exist is True:
-                raise KeyError(
-                    f'The required field "{old_fname}" does not exist!')
 
         self._field_name_list = list(self._data_fields.keys())
 
